@@ -17,6 +17,8 @@ def corpus(ctx):
     n = 40 if ctx.tier == "quick" else 500
     for k in range(n):
         progs["gen_%d_%d" % (ctx.seed, k)] = Gen(ctx.seed * 7000003 + k).program()
+    for k in range(n // 3):
+        progs["genmap_%d_%d" % (ctx.seed, k)] = Gen(ctx.seed * 7000003 + 500000 + k, features={"maps": True}).program()
     return progs
 
 
